@@ -30,6 +30,10 @@ def shards(tier, seed):
     for d in (0, 1):
         for s in spaces.sig(d):
             sh += mk('d<=1 complete T x T', spaces.cfg_sig(s), ('T', None), ('T', None))
+    # large operands (>= 1024 blade pairs): dense x dense in d=5 (three storage orders each), even x even in d=6
+    sh += mk('large operands: dense x dense d=5 (canonical / binary / reversed order), even x even d=6', spaces.cfg_pqr(4, 0, 1), ('full',), ('full',), 3)
+    ev6 = [k for k in range(64) if bin(k).count('1') % 2 == 0]
+    sh += mk('large operands: dense x dense d=5 (canonical / binary / reversed order), even x even d=6', spaces.cfg_pqr(5, 1, 0), ('list', [ev6]), ('list', [ev6, list(reversed(ev6))]), 1)
     if tier == 'quick':
         for s in spaces.sig(2):
             sh += mk('d=2 all orderings: ordered tuples of <=3 blades', spaces.cfg_sig(s), ('T', 3), ('T', 3), 6)
